@@ -3,7 +3,7 @@
 From GV Require Import StoreOps StoreOpsProofs.
 
 (** Fault.  For every shape of mutating operation (record an entry; commit a managed ref then its
-    entry; move a managed ref then its entry), every starting value of the ref (absent = first-ever,
+    entry; move a managed ref then its entry; rebase a managed ref then its entry), every starting value of the ref (absent = first-ever,
     present = established) and EVERY abstract fault point before the last mutating action has
     completed: no entry is appended, and after the compensation the code runs the managed ref is
     exactly what it was (hence "unchanged or matching its latest log entry"). *)
@@ -22,12 +22,14 @@ Print Assumptions C16_rerun.
 
 (** Crash.  Stopping dead after any number of mutating actions: the log has gained either nothing or
     exactly the operation's one entry (never a partial entry), and the managed ref holds its before-
-    or its after-value; by C08 (verdicts depend only on the log) every verification verdict is then
+    or its after-value - except between the first two steps of the staging rebase (ReconcileStaging on
+    diverged refs), where policy-staging holds the applied policy's commit [b], an ancestor of the
+    after-value, while the log is still the one from before; by C08 (verdicts depend only on the log) every verification verdict is then
     the before- or the after-verdict. *)
 Theorem C16_crash : forall o v s p, p <= List.length (program o) ->
   let s' := run_actions v (os_ref s) s (crash_actions o p) in
   (os_entries s' = os_entries s \/ (os_entries s' = S (os_entries s) /\ os_latest s' = Some v)) /\
-  (os_ref s' = os_ref s \/ os_ref s' = Some v \/ o = OpEntry).
+  (os_ref s' = os_ref s \/ os_ref s' = Some v \/ o = OpEntry \/ (p = 1 /\ exists b, o = OpRebaseWithEntry b /\ os_ref s' = Some b)).
 Proof. exact crash_before_or_after. Qed.
 Print Assumptions C16_crash.
 
